@@ -84,6 +84,11 @@ CLAIMED = {
    text="Collateral input sets of size 1..3 over 5 candidates (ADA at three widths, ADA + asset A, ADA + A + B) x set_collateral_return_and_total with 9 return coins (around the return's own min-ADA, around the input total, 0, 2^16) x 6 asset choices (exactly the inputs' assets, fewer, more, a different asset, none, partial) and set_total_collateral_and_return with 9 totals (0, 1, around inputs - min-ADA, = inputs, > inputs, 2^16, 2^32) x coins_per_byte {4310, 1} x both orders of collateral vs balancing; the percentage helper over collateral sets x percentages {0, 1, 99, 100, 150, 2^32, 2^64-1} x 3 output sizes x 2 strategies (RNG answers all explored). Oracle on the parsed body: table values of body[13] == value(body[16]) + body[17] for lovelace and every asset, return >= coins_per_byte*(160+size), total >= ceil(fee*pct/100), and after an Err neither field is set.",
    note="Trusted: notes/ledger_rules.md §7, refcbor. Raw pass-through setters excluded by the reading in DESIGN.",
    design="DESIGN.md §3 C19"),
+ "C16": dict(
+   technique="bounded-exhaustive enumeration (E1) of insertion histories with repeats x arrival paths on the real collection types, witness-set setters and asset maps, against a first-insertion-order / canonical-order reference model; explicit-state BFS (E2) over builder histories with every end state rebuilt 12 times under 4 hash-container seeds",
+   text="sets: all histories of length <= 4 (thorough 6) over 4 elements into TransactionInputs, Ed25519KeyHashes, Credentials, Certificates, VotingProposals, Vkeywitnesses, BootstrapWitnesses x {add, bytes tagged/untagged x definite/indefinite, JSON, decode-a-prefix-then-add at every split, inside a TransactionBody (fields 0, 13, 18, 14, 4, 20) / TransactionWitnessSet (0, 2)}; items cut from the emitted bytes == history with later repeats dropped, also after JSON/bytes round trip and clone; len/get/add-return agree. witness_setters: histories <= 4 (5) over 4 native scripts, 4 Plutus scripts, 5 datums (same value constructed / decoded / decoded non-canonical). asset_maps: <= 3 (4) insertions over 3 policies x 4 names (lengths 0,1,1,2) through MultiAsset::set_asset, Assets+MultiAsset::insert, Value, decoding unsorted bytes / JSON, add_mint_asset, MintBuilder, set_mint; key order length-first canonical at both levels and content == model. builder: BFS to depth 4 (5) over 39 ops x 2 configs x 2 finishing methods; byte-identical rebuilds (object, clone, 4 hash seeds), no repeated element in any set-typed field of the built transaction, every value and mint canonical.",
+   note="Trusted: refcbor; RFC 8949 length-first key order. Hash-order seam: verif-hooks feature (seeded HashMap/HashSet in the builder).",
+   design="DESIGN.md §3 C16"),
 }
 
 PENDING_REASON = "check not built yet in this session (work in progress; see DESIGN.md §8 construction order)"
